@@ -9,11 +9,26 @@ import subprocess
 import time
 
 VERIF = os.path.dirname(os.path.dirname(os.path.abspath(__file__)))
-WORK = os.path.join(VERIF, '.work')
 
 
 def repo():
     return os.path.abspath(os.environ.get('GREX_REPO', '/repo'))
+
+
+def is_default_repo():
+    return repo() == '/repo'
+
+
+def _work():
+    # one build/cache area per tree under check, so that concurrent runs on different trees never share a binary
+    if is_default_repo():
+        return os.path.join(VERIF, '.work', 'main')
+    import hashlib
+    return os.path.join(VERIF, '.work', 'alt-' + hashlib.sha1(repo().encode()).hexdigest()[:10])
+
+
+WORK = _work()
+OUT = VERIF if is_default_repo() else WORK     # where evidence/ and replays/ are written
 
 
 def env(extra=None):
@@ -81,7 +96,7 @@ def mir_dump(which='lib'):
 def native_build(profile='release'):
     """build /verif/native against the tree under check with --cfg grex_verif; -> path of the binary"""
     r = repo()
-    nd = os.path.join(VERIF, 'native')
+    nd = crate_copy('native')
     with Lock('native'):
         tmpl = open(os.path.join(nd, 'Cargo.toml.in')).read().replace('@GREX_REPO@', r)
         cur = None
@@ -99,6 +114,31 @@ def native_build(profile='release'):
         if p.returncode != 0:
             raise PrepError('native harness build failed (hooks do not compile against this tree?): ' + p.stderr[-600:])
     return os.path.join(tgt, profile if profile == 'release' else 'debug', 'grexverif-native'), round(dt, 1)
+
+
+def crate_copy(name):
+    """the harness crates are generated per tree: /verif/<name> for /repo, a copy under WORK for any other tree"""
+    src = os.path.join(VERIF, name)
+    if is_default_repo():
+        return src
+    dst = os.path.join(WORK, 'crates', name)
+    os.makedirs(dst, exist_ok=True)
+    for root, dirs, files in os.walk(src):
+        rel = os.path.relpath(root, src)
+        if rel.startswith('target'):
+            continue
+        os.makedirs(os.path.join(dst, rel), exist_ok=True)
+        for fn in files:
+            if fn in ('Cargo.toml', 'Cargo.lock'):
+                continue
+            sp, dp = os.path.join(root, fn), os.path.join(dst, rel, fn)
+            try:
+                same = open(sp, 'rb').read() == open(dp, 'rb').read()
+            except OSError:
+                same = False
+            if not same:
+                shutil.copyfile(sp, dp)
+    return dst
 
 
 def oracle(native_bin):
